@@ -70,6 +70,23 @@ pub fn run(ctx: &mut Ctx) {
             7 => gen::primal_infeasible(&mut rng, &o).0,
             _ => gen::dual_infeasible(&mut rng, &o).0,
         };
+        // a slice whose least-squares starting point lies astronomically far outside the cones
+        // (the initial shift into the interior is then decided by rounding)
+        let mut p = p;
+        if rng.bool(0.12) {
+            let f = 10f64.powf(rng.range(15.0, 30.0));
+            for v in p.b.iter_mut() {
+                if rng.bool(0.5) {
+                    *v *= f;
+                }
+            }
+            if rng.bool(0.3) {
+                for v in p.q.iter_mut() {
+                    *v *= f.sqrt();
+                }
+            }
+            ctx.bump("far_start_instances");
+        }
         let mut st = gen::random_settings(&mut rng, true);
         st.max_step_fraction = *rng.choose(&[0.5, 0.9, 0.99, 0.999]);
         st.linesearch_backtrack_step = *rng.choose(&[0.5, 0.8, 0.95]);
